@@ -62,11 +62,22 @@ def profile(**kw):
 
 
 class G:
-    def __init__(self, draw):
+    """
+    draws around hypothesis. With a ``salt`` every integer draw is rotated by a value taken from random.Random(salt): the
+    distribution becomes uniform and even Hypothesis' all-minimal first example is a different, feature-rich program for every
+    (seed, shard) - on a loaded machine a shard may only get to evaluate a handful of examples. Deterministic in (salt, draws).
+    """
+
+    def __init__(self, draw, salt=None):
+        import random
         self.draw = draw
+        self.rng = random.Random(salt) if salt is not None else None
 
     def i(self, lo, hi):
-        return self.draw(st.integers(lo, hi))
+        if self.rng is None:
+            return self.draw(st.integers(lo, hi))
+        n = hi - lo + 1
+        return lo + (self.draw(st.integers(0, n - 1)) + self.rng.randrange(n)) % n
 
     def pick(self, seq):
         seq = list(seq)
@@ -599,9 +610,9 @@ def gen_driver(g, prof, ns, kernels, feat):
 
 
 @st.composite
-def model(draw, prof=None):
+def model(draw, prof=None, salt=None):
     prof = prof or profile()
-    g = G(draw)
+    g = G(draw, salt)
     feat = set()
     ns = dict(NAMESETS[g.i(0, len(NAMESETS) - 1)])
     alias = prof['alias'] and g.chance(35)
@@ -611,7 +622,7 @@ def model(draw, prof=None):
     if alias:
         feat.add('kernel-size-aliases')
     ns['edge_uniform'] = g.chance(50) if prof['edge_uniform'] == 'mixed' else bool(prof['edge_uniform'])
-    nk = g.i(1, prof['max_kernels'])
+    nk = min(prof['max_kernels'], g.pick([1, 2, 2, 3, 3, 4]))
     two_mod = prof['second_module'] and nk > 1 and g.chance(30)
     kernels = []
     for idx in range(nk, 0, -1):
@@ -641,6 +652,30 @@ def driver_bounds_in_section(m):
     """True if the horizontal bounds are assigned inside a block loop and a driver-level horizontal loop follows before the first call"""
     d = m['driver']
     return bool(d['bounds_in_loop']) and any(_vector_block_before_call(lp, m['ns']['jl']) for lp in d['loops'])
+
+
+def rawstack_kind_only_in_callee(m):
+    """
+    True if some kernel may call (directly) a kernel whose call tree has a horizontal temporary of a type/kind for which the caller
+    is not guaranteed to have a stack temporary of its own (conservative: a caller temporary only counts when it is used and
+    cannot be demoted or removed by a preceding SCC stage, i.e. has a non-constant second dimension)
+    """
+    ks = {k['name']: k for k in m['kernels']}
+
+    def possible(k, seen=()):
+        out = {t['type'] for t in k['temps'] if t['shape'] != 'v1'}
+        for c in k['calls']:
+            if c not in seen:
+                out |= possible(ks[c], seen + (k['name'],))
+        return out
+
+    for k in m['kernels']:
+        body = str(k['body'])
+        own = {t['type'] for t in k['temps'] if t['shape'] in ('r2', 'r2z', 'r2p', 'r3') and _mentions(body, t['name'])}
+        for c in k['calls']:
+            if not possible(ks[c]) <= own:
+                return True
+    return False
 
 
 def _mentions(stmt, name):
